@@ -35,29 +35,25 @@ RXGRAD = [
 ]
 
 
-@lru_cache(maxsize=20000)
-def _axis_values(ea, eb, A, B, C, la, lb, kmax, nmax, ctxname):
-    """V[(k, n)][i][j] arrays (Ka, Kb) for one Cartesian axis."""
+@lru_cache(maxsize=4000)
+def _axis_array(ea, eb, A, B, C, la, lb, kmax, nmax, ctxname):
+    """W[k, n, i, j, Ka, Kb] = <(x-A)^i e^{-a..} | (x-C)^k d^n/dx^n | (x-B)^j e^{-b..}> for one axis."""
     ctx = LD if ctxname == LD.name else _mp()
     a = ctx.arr(np.asarray(ea))[:, None]
     b = ctx.arr(np.asarray(eb))[None, :]
     T = gauss1d.table(a, b, A, B, C, la, lb + nmax, kmax, ctx)
-    V = {}
+    W = ctx.zeros((kmax + 1, nmax + 1, la + 1, lb + 1, len(ea), len(eb)))
     for n in range(nmax + 1):
         coefs = [gauss1d.ket_derivative_coeffs(b, j, n, ctx) for j in range(lb + 1)]
         for k in range(kmax + 1):
-            tab = []
             for i in range(la + 1):
-                row = []
                 for j in range(lb + 1):
                     s = None
                     for jj, c in coefs[j].items():
                         t = c * T[i][jj][k]
                         s = t if s is None else s + t
-                    row.append(s)
-                tab.append(row)
-            V[(k, n)] = tab
-    return V
+                    W[k, n, i, j] = s
+    return W
 
 
 def _mp():
@@ -66,26 +62,37 @@ def _mp():
     return MP
 
 
-def raw_block(sa, sb, terms, C=(0.0, 0.0, 0.0), ctx=LD):
-    """Un-normalised primitive integrals [comp_a, comp_b, Ka, Kb] in the shells' Cartesian orders."""
-    kmax = [max(t[1][ax][0] for t in terms) for ax in range(3)]
-    nmax = [max(t[1][ax][1] for t in terms) for ax in range(3)]
-    V = [
-        _axis_values(sa.exps, sb.exps, sa.center[ax], sb.center[ax], float(C[ax]), sa.l, sb.l,
-                     kmax[ax], nmax[ax], ctx.name)
+def raw_multi(sa, sb, terms_list, C=(0.0, 0.0, 0.0), ctx=LD):
+    """Un-normalised primitive integrals [comp_a, comp_b, Ka, Kb, E] for E operators at once."""
+    allterms = [t for terms in terms_list for t in terms]
+    kmax = [max(t[1][ax][0] for t in allterms) for ax in range(3)]
+    nmax = [max(t[1][ax][1] for t in allterms) for ax in range(3)]
+    W = [
+        _axis_array(sa.exps, sb.exps, sa.center[ax], sb.center[ax], float(C[ax]), sa.l, sb.l,
+                    kmax[ax], nmax[ax], ctx.name)
         for ax in range(3)
     ]
-    ca, cb = sa.comps, sb.comps
-    out = ctx.zeros((len(ca), len(cb), sa.K, sb.K))
-    for ia, a in enumerate(ca):
-        for ib, b in enumerate(cb):
-            s = None
-            for coef, ops in terms:
-                t = V[0][ops[0]][a[0]][b[0]] * V[1][ops[1]][a[1]][b[1]] * V[2][ops[2]][a[2]][b[2]]
-                t = t * coef if coef != 1.0 else t
-                s = t if s is None else s + t
-            out[ia, ib] = s
+    ca = np.array(sa.comps)
+    cb = np.array(sb.comps)
+    out = ctx.zeros((len(ca), len(cb), sa.K, sb.K, len(terms_list)))
+    for e, terms in enumerate(terms_list):
+        s = None
+        for coef, ops in terms:
+            t = None
+            for ax in range(3):
+                k, n = ops[ax]
+                f = W[ax][k, n][ca[:, ax][:, None], cb[:, ax][None, :]]
+                t = f if t is None else t * f
+            if coef != 1.0:
+                t = t * coef
+            s = t if s is None else s + t
+        out[..., e] = s
     return out
+
+
+def raw_block(sa, sb, terms, C=(0.0, 0.0, 0.0), ctx=LD):
+    """Un-normalised primitive integrals [comp_a, comp_b, Ka, Kb] in the shells' Cartesian orders."""
+    return raw_multi(sa, sb, [terms], C, ctx)[..., 0]
 
 
 def contract_block(sa, sb, raw, ctx=LD, cart4=False):
@@ -149,3 +156,21 @@ def matrix(rows, cols, terms, C=(0.0, 0.0, 0.0), ctx=LD):
 def diag(shells, terms, C=(0.0, 0.0, 0.0), ctx=LD):
     """Diagonal elements <a|O|a> for every function of the basis."""
     return np.concatenate([np.diag(block(sh, sh, terms, C, ctx)) for sh in shells])
+
+
+def block_multi(sa, sb, terms_list, C=(0.0, 0.0, 0.0), ctx=LD, cart4=False):
+    return contract_block(sa, sb, raw_multi(sa, sb, terms_list, C, ctx), ctx, cart4=cart4)
+
+
+def matrix_multi(rows, cols, terms_list, C=(0.0, 0.0, 0.0), ctx=LD):
+    """Reference array (nrow, ncol, E) for E operators; every block computed on its own."""
+    return np.concatenate(
+        [np.concatenate([block_multi(sa, sb, terms_list, C, ctx) for sb in cols], axis=1) for sa in rows], axis=0)
+
+
+def diag_multi(shells, terms_list, C=(0.0, 0.0, 0.0), ctx=LD):
+    out = []
+    for sh in shells:
+        b = block_multi(sh, sh, terms_list, C, ctx)
+        out.append(np.einsum("iie->ie", b))
+    return np.concatenate(out, axis=0)
